@@ -18,7 +18,7 @@ Clause by clause:
   json paths / histories  C29_json_set_get_path, C29_json_set_frame, C29_json_history, C29_json_handle_set_get
   json arrays             C29_array_push_get, C29_array_history, C29_array_get_grows_keeps, C29_array_insert
   kernel arguments        C29_kernelarg_bytes, C29_kernelarg_public_ctor, C29_kernelarg_pointers, C29_kernelarg_bool_rejected
-  handles                 C29_handles_safe, C29_handles_no_leak, C29_null_document_not_leaked
+  handles                 C29_handles_safe, C29_handles_no_leak, C29_null_document_not_leaked, C29_entry_point_ownership
 Conversions between *different* numeric types that involve float/double are computed with Lean's
 runtime floats in the model and are only tested by the correspondence run (DESIGN.md section 3).
 -/
@@ -360,6 +360,13 @@ theorem C29_handles_no_leak (ops : List HOp) (p : PState) (h : PState.init.runP 
     the heap json the entry point allocated is released on that path (generated from the source),
     so the machine's `create` is only ever performed for handles the program can free. -/
 theorem C29_null_document_not_leaked : nullJsonFreesOwned = true := by decide
+
+/-- The `create` and `borrow` steps of the machine are what src/c/json.cpp does (generated from the
+    source): occaCreateJson / occaJsonParse return owning handles (needsFree), occaJsonObjectGet /
+    occaJsonArrayGet return borrowed ones — freeing an element handle never deletes part of a document. -/
+theorem C29_entry_point_ownership :
+    createOwning = true ∧ parseOwning = true ∧ objectGetOwning = false ∧ arrayGetOwning = false ∧
+    releases tagJson true = true ∧ releases tagJson false = false := by decide
 
 /-- a non-trivial history satisfying the hypotheses: a json document, a borrowed child handle, a
     struct copy, frees of the borrowed handle and of the owner through its copy -/
